@@ -483,7 +483,9 @@ class DirichletClassificationLikelihood(FixedNoiseGaussianLikelihood):
         """
         return super().marginal(function_dist, *args, **kwargs)
 
-    def __call__(self, input: Union[Tensor, MultivariateNormal], *args: Any, **kwargs: Any) -> Distribution:
+    def _shaped_noise_covar(self, base_shape: torch.Size, *params: Any, **kwargs: Any) -> Union[Tensor, LinearOperator]:
+        # `targets=` stands for the noise of those labels in every entry point (marginal, log_marginal, expected_log_prob,
+        # forward, __call__), all of which obtain the noise here
         if "targets" in kwargs:
             targets = kwargs.pop("targets")
             dtype = self.transformed_targets.dtype
@@ -491,4 +493,4 @@ class DirichletClassificationLikelihood(FixedNoiseGaussianLikelihood):
                 targets, alpha_epsilon=self.alpha_epsilon, dtype=dtype, num_classes=self.num_classes
             )
             kwargs["noise"] = new_noise
-        return super().__call__(input, *args, **kwargs)
+        return super()._shaped_noise_covar(base_shape, *params, **kwargs)
